@@ -48,6 +48,10 @@ def _canon_if(node: ast.If):
         if isinstance(t, ast.Compare) and len(t.ops) == 1 and isinstance(t.ops[0], (ast.NotEq, ast.NotIn, ast.IsNot, ast.LtE, ast.GtE)):
             pos = {ast.NotEq: ast.Eq, ast.NotIn: ast.In, ast.IsNot: ast.Is, ast.LtE: ast.Gt, ast.GtE: ast.Lt}[type(t.ops[0])]
             return ast.Compare(left=t.left, ops=[pos()], comparators=t.comparators), o, b
+        # negation-normal form of `not (a or b)`: every operand negated - the positive spelling is the De Morgan dual
+        if isinstance(t, ast.BoolOp) and all(isinstance(v, ast.UnaryOp) and isinstance(v.op, ast.Not) for v in t.values):
+            dual = ast.BoolOp(op=ast.Or() if isinstance(t.op, ast.And) else ast.And(), values=[v.operand for v in t.values])
+            return dual, o, b
     return t, b, o
 
 
